@@ -183,7 +183,7 @@ func ruleAppendEntries() *Rule {
 					if ci < 0 {
 						out = append(out, Obligation{Rule: id, Construct: o.Key, Pos: o.Pos, Verdict: Violated,
 							Detail: "Log.Truncate(" + arg + ") is not guarded by a conflict test between log[e.Index] and a request entry e: the log is truncated without a term conflict (a stale or shorter request can erase matching, possibly committed, entries)",
-							Facts: append([]string{"context: " + o.Chain}, conflictS...)})
+							Facts:  append([]string{"context: " + o.Chain}, conflictS...)})
 						continue
 					}
 					out = append(out, evalObs(a, id, []*Observation{o}, func(_ *Observation, pt int) bool {
